@@ -124,8 +124,8 @@ func Describe(gs []GoroutineInfo, max int) string {
 			break
 		}
 		n := len(g.Funcs)
-		if n > 6 {
-			n = 6
+		if n > 18 {
+			n = 18
 		}
 		sb.WriteString("g" + g.ID + "[" + g.State + "]: " + strings.Join(g.Funcs[:n], " < ") + "\n")
 	}
